@@ -36,6 +36,7 @@ POOL = [
     ("B-", {2: 1, 0: -1}),
     ("e-", {0: -1}),
     ("AB-", {1: 1, 2: 1, 0: -1}),
+    ("hv", {}),  # a species whose composition is present but empty (photon, inert third body)
 ]
 COMP = dict(POOL)
 NAMES = [n for n, c in POOL]
@@ -52,6 +53,9 @@ BALANCED = [
     ({"AB-": 1}, {"A": 1, "B-": 1}),
     ({"A+": 1, "B-": 1}, {"AB": 1}),
     ({"AB": 2}, {"A2B": 1, "B": 1}),
+    ({"A": 1}, {"A2": 1, "B": 1}, {"AB": 1}, {}),  # A + (AB) -> A2 + B: AB is consumed through an inactive coefficient only
+    ({"A2B": 1}, {"A": 1}, {}, {"AB": 1}),  # A2B -> A + (AB): AB is produced through an inactive coefficient only
+    ({"A2": 1, "hv": 1}, {"A": 2}),  # photolysis: hv carries no composition
 ]
 UNBALANCED = [
     ({"A": 1}, {"A2": 1}),  # element 1 only
@@ -59,6 +63,8 @@ UNBALANCED = [
     ({"A+": 1}, {"A": 1}),  # charge only
     ({"A": 1, "B": 1}, {"AB-": 1}),  # charge only, two reactants
     ({"A2B": 1}, {"A+": 1, "B": 2}),  # all three keys
+    ({"A": 1}, {"A2": 1}, {"AB": 1}, {}),  # unbalanced only through its inactive reactant
+    ({"A2": 1, "hv": 1}, {"A": 1}),  # unbalanced, involving the composition-free species
 ]
 KPAT = [(0.1, 1.0, 10.0), (10.0, 1.0, 0.1), (1.0, 1.0, 1.0)]
 
@@ -80,6 +86,17 @@ def chunks(tier):
 
 
 # ------------------------------------------------------------------------------------------------ model
+def _full(rx):
+    """(all reactants, all products) of a reaction tuple, inactive parts included"""
+    r, p = dict(rx[0]), dict(rx[1])
+    if len(rx) > 2:
+        for k, v in rx[2].items():
+            r[k] = r.get(k, 0) + v
+        for k, v in rx[3].items():
+            p[k] = p.get(k, 0) + v
+    return r, p
+
+
 def net_keys(reac, prod, comp):
     """{composition key: net amount produced}"""
     out = {}
@@ -93,7 +110,7 @@ def net_keys(reac, prod, comp):
 def _participants(rxn_dicts):
     """the species taking part in the reactions, in pool order (get_odesys does not accept an idle substance)"""
     used = set()
-    for r, p in rxn_dicts:
+    for r, p in map(_full, rxn_dicts):
         used |= set(r) | set(p)
     return [n for n in NAMES if n in used]
 
@@ -107,7 +124,8 @@ def _substances(names, comp):
 def _mk_system(rxn_dicts, names, comp, params=None):
     from chempy import Reaction, ReactionSystem
 
-    rxns = [Reaction(r, p, (params[i] if params else i + 2)) for i, (r, p) in enumerate(rxn_dicts)]
+    rxns = [Reaction(rx[0], rx[1], (params[i] if params else i + 2), inact_reac=(rx[2] if len(rx) > 2 else None), inact_prod=(rx[3] if len(rx) > 2 else None))
+            for i, rx in enumerate(rxn_dicts)]
     return ReactionSystem(rxns, _substances(names, comp))
 
 
@@ -125,8 +143,8 @@ def check_construction(res, rxn_dicts, names, comp, case, layer):
     """accepted ⇔ every reaction leaves every key unchanged; a rejection names a key that is really violated"""
     import re
 
-    nets = [net_keys(r, p, comp) for r, p in rxn_dicts]
-    has_effect = all(any(r.get(s, 0) != p.get(s, 0) for s in set(r) | set(p)) for r, p in rxn_dicts)
+    nets = [net_keys(*_full(rx), comp=comp) for rx in rxn_dicts]
+    has_effect = all(any(r.get(s, 0) != p.get(s, 0) for s in set(r) | set(p)) for r, p in map(_full, rxn_dicts))
     res.states += 1
     res.transitions += len(rxn_dicts)
     res.evaluations += 1
@@ -190,22 +208,24 @@ def check_invariants(res, rs, rxn_dicts, names, comp, case, with_ode=True):
         B, ck = "EXC %s" % type(e).__name__, None
     if B != B_exp or list(ck or []) != keys_exp:
         bad.append(("composition_balance_vectors", (B, ck), (B_exp, keys_exp)))
-    S = [[p.get(n, 0) - r.get(n, 0) for n in names] for r, p in rxn_dicts]
+    S = [[p.get(n, 0) - r.get(n, 0) for n in names] for r, p in map(_full, rxn_dicts)]
     for row in B_exp:
         for srow in S:
             if sum(a * b for a, b in zip(row, srow)) != 0:
                 bad.append(("B.S^T", row, srow))
     # violation helpers agree with the model (all zero for an accepted system)
-    for rxn, (r, p) in zip(rs.rxns, rxn_dicts):
+    for rxn in rs.rxns:
         res.evaluations += 2
         try:
             q = rxn.charge_neutrality_violation(rs.substances)
             cv = rxn.composition_violation(rs.substances)
         except Exception as e:
             q, cv = "EXC %s" % type(e).__name__, None
-        if q != 0 or list(cv or [1]) != [0] * len(keys_exp):
+        if q != 0 or cv is None or list(cv) != [0] * len(keys_exp):
             bad.append(("violation helpers", (q, cv), 0))
-    if with_ode and not bad:
+    if with_ode and not bad and all(rx[0] for rx in rxn_dicts):
+        # (a system made only of zeroth-order steps gives a constant right-hand side that the ODE builder does not take;
+        # that is the builders' acceptance question, C04, not a conservation question)
         from chempy.kinetics.ode import get_odesys
 
         res.evaluations += 1
@@ -214,7 +234,7 @@ def check_invariants(res, rs, rxn_dicts, names, comp, case, with_ode=True):
             if list(odesys.names) != list(names):
                 bad.append(("odesys.names", list(odesys.names), list(names)))
             li = odesys.linear_invariants
-            li = [list(map(int, r)) for r in (li.tolist() if hasattr(li, "tolist") else li)]
+            li = [] if li is None else [list(map(int, r)) for r in (li.tolist() if hasattr(li, "tolist") else li)]
             if li != B_exp:
                 bad.append(("odesys.linear_invariants", li, B_exp))
             for row in B_exp:
@@ -350,8 +370,13 @@ def run_chunk(chunk, tier):
         res.sample(dict(layer="M", first=first, unbalanced=first >= len(BALANCED)))
     elif kind == "I":
         first = chunk[1]
-        others = [i for i in range(len(BALANCED)) if i != first]
+        # (a reaction that consumes a species through an inactive coefficient keeps consuming it at zero concentration:
+        # its trajectories leave the physical region and the integrator may give up — not part of the integration lattice)
+        usable = [i for i in range(len(BALANCED)) if not (len(BALANCED[i]) > 2 and BALANCED[i][2])]
+        others = [i for i in usable if i != first]
         for n in (2, 3):
+            if first not in usable:
+                break
             for rest in itertools.combinations(others, n - 1):
                 seq = (first,) + rest
                 rx = [BALANCED[i] for i in seq]
